@@ -113,6 +113,30 @@ func (a *Anchors) inferFn(role string) *ssa.Function {
 			}
 		}
 		return best
+	case "xss.urlMatch":
+		// the (string, string) → bool callee of the URL predicate
+		pred := a.FnOpt("xss.isBlackURL")
+		if pred == nil {
+			return nil
+		}
+		for _, ci := range ssax.Calls(pred) {
+			if f := ci.Common().StaticCallee(); f != nil && p.InModule(f) && f.Signature.Params().Len() == 2 && f.Signature.Results().Len() == 1 {
+				if b, ok := f.Signature.Results().At(0).Type().Underlying().(*types.Basic); ok && b.Kind() == types.Bool {
+					return f
+				}
+			}
+		}
+	case "xss.decode":
+		// the string → (int, int) callee of the matcher
+		m := a.FnOpt("xss.urlMatch")
+		if m == nil {
+			return nil
+		}
+		for _, ci := range ssax.Calls(m) {
+			if f := ci.Common().StaticCallee(); f != nil && p.InModule(f) && f.Signature.Params().Len() == 1 && f.Signature.Results().Len() == 2 {
+				return f
+			}
+		}
 	case "xss.ctx":
 		root := p.Func("IsXSS")
 		if root == nil {
